@@ -544,8 +544,18 @@ func RunKeyGen(raw json.RawMessage, seed int64) (res Result) {
 					sd[i] = 0 // the all-zero seed of that length
 				}
 			}
-			sk, err := crypto.GeneratePrivateKey(algo, sd)
+			// the seed is a window of a larger buffer (seeds stored back to back): nothing outside, and nothing inside, is written
+			room := make([]byte, len(sd)+24)
+			for i := range room {
+				room[i] = 0xA7
+			}
+			copy(room[8:], sd)
+			before := append([]byte(nil), room...)
+			sk, err := crypto.GeneratePrivateKey(algo, room[8:8+len(sd)])
 			res.Evals++
+			if !bytes.Equal(room, before) {
+				add("Deterministic", fmt.Sprintf("GeneratePrivateKey(%s, %d-byte seed) writes into the caller's buffer (seed bytes or the bytes next to them changed)", c.Job.Algo, c.Job.Len))
+			}
 			if (err == nil) != c.Accept {
 				add("SeedLengthBounds", fmt.Sprintf("GeneratePrivateKey(%s, %d-byte seed): err=%v, accepted lengths are 32..256", c.Job.Algo, c.Job.Len, err))
 				continue
